@@ -29,6 +29,7 @@ func init() {
 		Assumptions: []string{"resource.Value/Collection write semantics (C02, C05)", "unitpb.Convert32 arithmetic (C18)"},
 		Run:         runC20,
 		Controls: []Control{
+			{Name: "meter-newmodel-overwrites-period", File: "pkg/trait/meterpb/model.go", Old: "\t\tproto.Merge(newVal, old)\n", New: "", Expect: "R20.13"},
 			{Name: "computed-properties-after-caller-options", File: "pkg/trait/publicationpb/model.go", Old: "\topts = append([]resource.WriteOption{m.withComputedProperties(args)}, opts...)", New: "\topts = append(opts, m.withComputedProperties(args))", Expect: "R20.11"},
 			{Name: "revert-F21-consumables-to-inventory", File: "pkg/trait/vendingpb/model_opts.go", Old: "\t\targs.consumableOptions = append(args.consumableOptions, opts...)\n\t})", New: "\t\targs.inventoryOptions = append(args.inventoryOptions, opts...)\n\t})", Expect: "R20.1"},
 			{Name: "revert-F22-default-modes", File: "pkg/trait/modepb/model.go", Old: "\t\tmodes: modes,", New: "\t\tmodes: DefaultModes,", Expect: "R20.1"},
@@ -64,6 +65,14 @@ func runC20(c *an.Ctx) {
 	r209(c)
 	r2010(c)
 	r2011(c)
+	r2013(c)
+	c.Min("R20.13", 2)
+	// a dispense that fails leaves the stock as it was: the interceptor restores the whole old value before it reports
+	// the error (shared with R14.8, for the vending model)
+	r148as(c, "R20.12", func(fn *ssa.Function) bool {
+		return fn.Package() != nil && strings.HasSuffix(fn.Package().Pkg.Path(), "/pkg/trait/vendingpb")
+	})
+	c.Min("R20.12", 3)
 	r201accumulate(c)
 	c.Min("R20.11", 3)
 	c.Min("R20.1", 55)
@@ -1654,4 +1663,74 @@ func nameBinarySearchesDeep(fn *ssa.Function) []*ssa.Call {
 		})
 	}
 	return out
+}
+
+// r2013: a meter keeps the period it was configured with. NewModel stamps start and end time only where the configured
+// reading lacks them: every stamp in its interceptor is guarded by a nil test of that field on a value that holds the
+// configured reading - the old value, or the written value after the old one has been merged into it.
+func r2013(c *an.Ctx) {
+	const rule = "R20.13"
+	fn := mustFunc(c, rule, "pkg/trait/meterpb", "", "NewModel")
+	if fn == nil {
+		return
+	}
+	name := an.FuncName(fn)
+	c.SawFunc(name)
+	n := 0
+	for _, ic := range interceptorBodies(fn, "InterceptBefore") {
+		f, oldP, newP := ic.fn, ic.old, ic.new
+		derivesFrom := func(v ssa.Value, p *ssa.Parameter) bool {
+			for _, s0 := range an.Sources(v) {
+				if s0 == ssa.Value(p) {
+					return true
+				}
+			}
+			return false
+		}
+		var merges []ssa.Instruction
+		an.Instrs(f, func(in ssa.Instruction) {
+			if cl, ok := in.(*ssa.Call); ok && an.CalleeName(cl) == "google.golang.org/protobuf/proto.Merge" && len(cl.Call.Args) == 2 {
+				if derivesFrom(cl.Call.Args[0], newP) && derivesFrom(cl.Call.Args[1], oldP) {
+					merges = append(merges, in)
+				}
+			}
+		})
+		an.Instrs(f, func(in ssa.Instruction) {
+			st, ok := in.(*ssa.Store)
+			if !ok {
+				return
+			}
+			base, _, fld, isF := an.FieldOf(st.Addr)
+			if !isF || (fld != "StartTime" && fld != "EndTime") || !derivesFrom(base, newP) {
+				return
+			}
+			n++
+			guarded := false
+			for _, e := range an.GuardingEdges(st) {
+				x, trueMeansNil, isNil := an.NilTest(e.If.Cond)
+				if !isNil || e.Branch != trueMeansNil {
+					continue
+				}
+				b2, _, f2, isF2 := an.FieldOf(x)
+				if !isF2 || f2 != fld {
+					continue
+				}
+				if derivesFrom(b2, oldP) {
+					guarded = true
+				}
+				if derivesFrom(b2, newP) {
+					for _, m := range merges {
+						if an.Dominates(m, e.If) {
+							guarded = true
+						}
+					}
+				}
+			}
+			c.Check(guarded, rule, name+"|"+fld+" is stamped only where the configured reading lacks it", st.Pos(), "",
+				"NewModel's interceptor sets "+fld+" without first seeing that the configured reading has none (the nil test looks at the freshly written message, which never has one): a model created with resource.WithInitialValue(reading) loses the period it was given")
+		})
+	}
+	if n == 0 {
+		c.Unk(rule, name+"|the period is completed", fn.Pos(), "NewModel's interceptor does not stamp start/end time")
+	}
 }
